@@ -1,21 +1,23 @@
 (* C13 — Endpoint policies apply only to requests matching their declared
    endpoint.  Final statements only; proofs are in Proofs.v and
    Lib/UrlTreeProofs.v.  The model is the code after the repairs
-   patches/C13/fix-F-C13{,b,c,d}.patch.
+   patches/C13/fix-F-C13{,b,c,d,g}.patch.
 
    Vocabulary: [build ds] = BuildEndpointPolicyTree (None = the loader rejects
    the declarations); [endpoint_remedies pt m url] / [endpoint_diagnoses] = the
    endpoint-scoped plugins the dispatcher selects for a request; [plookup] =
    EndpointPolicyTree.Lookup; [pat d] = the declared pattern of [d];
-   [matches] = the specification matcher of Lib/UrlTree, written from the
-   property text; [kind_consistentb ds] = no two declarations reach the same
-   trie node once as a host label and once as a path segment (known finding
-   F-C13e, e.g. "a.b" next to "a/b").
-
-   Completeness is deliberately NOT claimed: the lookup does not backtrack
-   (with h/{x}/b and h/a/c declared, h/a/b selects nothing).  What is claimed
-   in that direction is [C13_most_specific] (c): a wildcard-free pattern that
-   no literal sibling shadows is selected. *)
+   [matches_kind] = the specification matcher of Lib/UrlTree, written from the
+   property text (a trailing wildcard is a step of a kind: "a.com/*" stands
+   for path segments below a.com, not for "a.com.evil.org/x"); [matches] = its
+   lax reading (wildcard swallows parts of any kind); [spec_leb] = the
+   specificity order literal > parameter > wildcard, left to right;
+   [unshadowedb ds [] p us] = no parameter step of p, along the request us,
+   has a declared literal sibling carrying the request part (the descent does
+   not backtrack out of a literal branch: known finding F-C13h);
+   [no_braceb us] = no request part is spelled "{..}" (F-C13i);
+   [kind_consistentb ds] = no two declarations reach the same trie node once
+   as a host label and once as a path segment (F-C13e, "a.b" next to "a/b"). *)
 From Coq Require Import List ZArith NArith Bool Permutation.
 From Verif Require Import Lib.UrlTree Lib.UrlTreeProofs C13.Model C13.Proofs.
 Import ListNotations.
@@ -28,16 +30,17 @@ Definition C13_sound_statement (ds : list decl) : Prop :=
   forall pt m url, build ds = Some pt ->
     (forall r, In r (endpoint_remedies pt m url) ->
        exists d, In d ds /\ d_method d = m /\ In r (d_rem d) /\
-                 r_enabled r = true /\ matches (pat d) (split_url url) = true) /\
+                 r_enabled r = true /\ matches_kind (pat d) (split_url url) = true) /\
     (forall g, In g (endpoint_diagnoses pt m url) ->
        exists d, In d ds /\ d_method d = m /\ In g (d_diag d) /\
-                 g_enabled g = true /\ matches (pat d) (split_url url) = true).
+                 g_enabled g = true /\ matches_kind (pat d) (split_url url) = true).
 
 (* for all declaration lists, methods and URLs *)
 Definition C13_sound_full : Prop := forall ds, C13_sound_statement ds.
 
 (* A remedy / diagnosis selected for (m, url) was declared, enabled, for
-   method m on a pattern that matches url — for every list of declarations
+   method m on a pattern that matches url (kind-aware: a wildcard stands for
+   nothing or for parts of its own kind) — for every list of declarations
    without a host-label/path-segment clash, every order, every request. *)
 Theorem C13_sound_holds_outside_hostpath_clash : forall ds,
   kind_consistentb ds = true -> C13_sound_statement ds.
@@ -55,6 +58,30 @@ Corollary C13_sound : forall ds,
   kind_consistentb ds = true -> C13_sound_statement ds.
 Proof. exact C13_sound_holds_outside_hostpath_clash. Qed.
 Print Assumptions C13_sound.
+
+(* the statement as it stood before the specification matcher was made
+   kind-aware (lax reading of the wildcard); a consequence, kept because
+   C14 (coverage of the managed-endpoint expressions) builds on it *)
+Definition C13_sound_lax_statement (ds : list decl) : Prop :=
+  forall pt m url, build ds = Some pt ->
+    (forall r, In r (endpoint_remedies pt m url) ->
+       exists d, In d ds /\ d_method d = m /\ In r (d_rem d) /\
+                 r_enabled r = true /\ matches (pat d) (split_url url) = true) /\
+    (forall g, In g (endpoint_diagnoses pt m url) ->
+       exists d, In d ds /\ d_method d = m /\ In g (d_diag d) /\
+                 g_enabled g = true /\ matches (pat d) (split_url url) = true).
+
+Corollary C13_sound_lax : forall ds,
+  kind_consistentb ds = true -> C13_sound_lax_statement ds.
+Proof.
+  intros ds HK pt m url HB. destruct (C13_sound ds HK pt m url HB) as [HR HD].
+  split; intros x Hx.
+  - destruct (HR x Hx) as (d & H1 & H2 & H3 & H4 & H5).
+    exists d. repeat split; auto. apply matches_kind_matches. exact H5.
+  - destruct (HD x Hx) as (d & H1 & H2 & H3 & H4 & H5).
+    exists d. repeat split; auto. apply matches_kind_matches. exact H5.
+Qed.
+Print Assumptions C13_sound_lax.
 
 (* the dispatcher adds exactly the enabled global plugins to them *)
 Theorem C13_dispatch : forall pt grem m url s n,
@@ -80,6 +107,9 @@ Definition mk (m u : str) (name ty : Z) : decl :=
 Definition u_a_dot_b : str := [97; 46; 98].
 Definition u_a_slash_b : str := [97; 47; 98].
 Definition clash : list decl := [mk s_GET u_a_dot_b 1 1; mk s_GET u_a_slash_b 2 2].
+Definition u_h_star : str := [104; 47; 42].       (* h/* *)
+Definition u_h_a : str := [104; 47; 97].           (* h/a *)
+Definition u_h_b : str := [104; 47; 98].           (* h/b *)
 
 (* F-C13e: with "a.b" declared before "a/b" the request GET a.b is given the
    remedy declared for a/b *)
@@ -98,6 +128,53 @@ Proof.
 Qed.
 Print Assumptions C13_sound_full_refuted.
 
+(* "a.com/*" and "a.com.evil.org/x" *)
+Definition u_acom_star : str := [97; 46; 99; 111; 109; 47; 42].
+Definition u_acom_evil : str :=
+  [97; 46; 99; 111; 109; 46; 101; 118; 105; 108; 46; 111; 114; 103; 47; 120].
+Definition u_acom_x : str := [97; 46; 99; 111; 109; 47; 120].
+Definition wildhost : list decl := [mk s_GET u_acom_star 1 1].
+
+(* Variant switch: the selection through the Lookup of BEFORE fix F-C13g
+   ([walk_v false]: a wildcard child is remembered whatever its kind).  It is
+   not sound: the remedy declared for GET a.com/* is selected for
+   GET a.com.evil.org/x, a request to another host.  ([build] is the same for
+   both variants on this witness: one declaration.) *)
+Definition C13_sound_unfixed : Prop :=
+  forall ds pt m url r, build ds = Some pt -> kind_consistentb ds = true ->
+    In r (endpoint_remedies_v false pt m url) ->
+    exists d, In d ds /\ d_method d = m /\ In r (d_rem d) /\
+              r_enabled r = true /\ matches_kind (pat d) (split_url url) = true.
+
+Theorem C13_sound_wildkind_unfixed_refuted : ~ C13_sound_unfixed.
+Proof.
+  intro H.
+  destruct (build wildhost) as [pt|] eqn:HB; [|vm_compute in HB; discriminate].
+  assert (HK : kind_consistentb wildhost = true) by (vm_compute; reflexivity).
+  assert (Hin : In {| r_name := 1; r_type := 1; r_enabled := true |}
+                   (endpoint_remedies_v false pt s_GET u_acom_evil)).
+  { vm_compute in HB. inversion HB; subst pt. vm_compute. left. reflexivity. }
+  destruct (H wildhost pt s_GET u_acom_evil _ HB HK Hin) as (d & Hd & _ & _ & _ & Hm).
+  destruct Hd as [<-|[]]. vm_compute in Hm. discriminate Hm.
+Qed.
+Print Assumptions C13_sound_wildkind_unfixed_refuted.
+
+(* [endpoint_remedies] is the [true] side of the switch; on the witness the
+   repaired code selects nothing for the foreign host and still serves
+   a.com/x and a.com itself *)
+Example C13_wildkind_fixed :
+  (forall pt m url, endpoint_remedies_v true pt m url = endpoint_remedies pt m url) /\
+  match build wildhost with
+  | Some pt =>
+      map r_name (endpoint_remedies pt s_GET u_acom_evil) = [] /\
+      map r_name (endpoint_remedies pt s_GET u_acom_x) = [1] /\
+      map r_name (endpoint_remedies pt s_GET [97; 46; 99; 111; 109]) = [1] /\
+      matches (pat (mk s_GET u_acom_star 1 1)) (split_url u_acom_evil) = true /\
+      matches_kind (pat (mk s_GET u_acom_star 1 1)) (split_url u_acom_evil) = false
+  | None => False
+  end.
+Proof. split; [reflexivity|]. vm_compute. repeat split; reflexivity. Qed.
+
 (* ------------------------------------------------------------------ *)
 (* Most specific pattern, normalised URL, path parameters *)
 
@@ -105,13 +182,17 @@ Theorem C13_most_specific : forall ds pt url,
   build ds = Some pt -> kind_consistentb ds = true ->
   let r := plookup pt url in
   (* (a) a value is reported only for the node of a declared pattern that
-         matches the request; the normalised URL is that pattern in canonical
-         spelling; the path parameters are the request's parts at its
-         parameter positions (requests without {..}-shaped parts) *)
+         matches the request (kind-aware); the normalised URL is that pattern
+         in canonical spelling; the path parameters are the request's parts
+         at its parameter positions — for ALL requests with the reading
+         [params_at_nb] (a request part spelled "{..}" binds nothing), hence
+         literally the parts at the parameter positions ([params_at]) when
+         the request has no such part *)
   (forall id, l_val r = Some id ->
      exists d, In d ds /\ dkey d = l_key r /\
-       matches (pat d) (split_url url) = true /\
+       matches_kind (pat d) (split_url url) = true /\
        l_norm r = render_pattern (pat d) /\
+       l_params r = params_at_nb (pat d) (split_url url) [] /\
        (Forall (fun u => is_brace (snd u) = false) (split_url url) ->
         l_params r = params_at (pat d) (split_url url) [])) /\
   (* (b) literal over parameter: where the selected node's path has a
@@ -131,12 +212,198 @@ Proof.
   intros ds pt url HB HK r.
   apply kind_consistentb_spec in HK. pose proof (build_inv ds pt HB HK) as HI.
   split; [|split].
-  - intros id HV. exact (selected_declared ds pt url id HI HV).
+  - intros id HV.
+    destruct (selected_declared ds pt url id HI HV) as (d & H1 & H2 & H3 & H4 & H5).
+    exists d. repeat split; auto.
+    intro HNB. unfold r. rewrite H5. apply params_at_nb_nobrace. exact HNB.
   - intros HM A X' k u HKey Hn d' ps Hd'.
     exact (literal_over_parameter ds pt url A X' k u HI HM HKey Hn d' ps Hd').
   - intros d Hd HW HMt HU. exact (exact_wins_val ds pt url d HI Hd HW HMt HU).
 Qed.
 Print Assumptions C13_most_specific.
+
+(* in the policy tree every node a lookup can return is a declared one: a
+   match always reports a value (so (a) speaks about every match) *)
+Theorem C13_match_reports_value : forall ds pt url,
+  build ds = Some pt -> kind_consistentb ds = true ->
+  l_match (plookup pt url) = true -> l_val (plookup pt url) <> None.
+Proof.
+  intros ds pt url HB HK HM.
+  apply kind_consistentb_spec in HK.
+  exact (matched_has_value ds pt url (build_inv ds pt HB HK) HM).
+Qed.
+Print Assumptions C13_match_reports_value.
+
+(* Global specificity.  Among the declared patterns that match the request
+   (kind-aware) and that the descent can follow ([unshadowedb]: the lookup
+   never leaves a literal branch it has entered), the selected one is THE
+   maximum of the order literal > parameter > wildcard, compared left to
+   right ([spec_leb], antisymmetric: [C13_selected_is_the_maximum]).  In
+   particular a deeper wildcard beats an outer one (h/a/* over h/* for h/a/b
+   and for h/a itself), an exact pattern beats a wildcard that stands for
+   nothing (h/a over h/a/* for h/a).
+     (a) what is selected is such a pattern;
+     (b) it is at least as specific as every such pattern;
+     (c) if there is such a pattern, something is selected (requests
+         without a part spelled "{..}"). *)
+Theorem C13_global_specificity : forall ds pt url,
+  build ds = Some pt -> kind_consistentb ds = true ->
+  let r := plookup pt url in
+  let us := split_url url in
+  (forall id, l_val r = Some id ->
+     exists d, In d ds /\ dkey d = l_key r /\
+       matches_kind (pat d) us = true /\ unshadowedb ds [] (pat d) us = true) /\
+  (forall d', In d' ds -> matches_kind (pat d') us = true ->
+     unshadowedb ds [] (pat d') us = true -> l_match r = true ->
+     spec_leb (steps_of (pat d')) (rev (l_key r)) = true) /\
+  (forall d', In d' ds -> matches_kind (pat d') us = true ->
+     unshadowedb ds [] (pat d') us = true -> no_braceb us = true ->
+     l_val r <> None).
+Proof.
+  intros ds pt url HB HK r us.
+  apply kind_consistentb_spec in HK. pose proof (build_inv ds pt HB HK) as HI.
+  split; [|split].
+  - intros id HV.
+    destruct (selected_declared ds pt url id HI HV) as (d & H1 & H2 & H3 & _).
+    exists d. repeat split; auto.
+    apply (selected_unshadowed ds pt url d HI (lookup_val_match _ _ _ HV) H1 H2).
+  - intros d' Hd HM HU HMt.
+    exact (proj1 (reachable_below ds pt url d' HI Hd HM HU) HMt).
+  - intros d' Hd HM HU HNB.
+    apply (matched_has_value ds pt url HI).
+    apply (proj2 (reachable_below ds pt url d' HI Hd HM HU)).
+    apply no_braceb_spec. exact HNB.
+Qed.
+Print Assumptions C13_global_specificity.
+
+(* uniqueness of the maximum: a followable matching declared pattern that is
+   at least as specific as the selected one denotes the selected node *)
+Theorem C13_selected_is_the_maximum : forall ds pt url d',
+  build ds = Some pt -> kind_consistentb ds = true ->
+  In d' ds -> matches_kind (pat d') (split_url url) = true ->
+  unshadowedb ds [] (pat d') (split_url url) = true ->
+  l_match (plookup pt url) = true ->
+  spec_leb (rev (l_key (plookup pt url))) (steps_of (pat d')) = true ->
+  dkey d' = l_key (plookup pt url).
+Proof.
+  intros ds pt url d' HB HK Hd HM HU HMt HLe.
+  destruct (C13_global_specificity ds pt url HB HK) as (_ & Hb & _).
+  pose proof (Hb d' Hd HM HU HMt) as HGe.
+  pose proof (spec_leb_antisym _ _ HGe HLe) as E.
+  rewrite <- steps_of_key in E. unfold dkey.
+  rewrite <- (rev_involutive (key_of (pat d'))), E, rev_involutive. reflexivity.
+Qed.
+Print Assumptions C13_selected_is_the_maximum.
+
+(* "the most specific declared pattern wins", in full: whenever a declared
+   pattern matches the request, a declared pattern is selected and it is at
+   least as specific *)
+Definition C13_most_specific_statement (ds : list decl) (pt : ptree) (url : str)
+           (d' : decl) : Prop :=
+  l_val (plookup pt url) <> None /\
+  spec_leb (steps_of (pat d')) (rev (l_key (plookup pt url))) = true.
+
+Definition C13_most_specific_full : Prop :=
+  forall ds pt url d', build ds = Some pt -> In d' ds ->
+    matches_kind (pat d') (split_url url) = true ->
+    C13_most_specific_statement ds pt url d'.
+
+Definition u_h_xb : str := [104; 47; 123; 120; 125; 47; 98].    (* h/{x}/b *)
+Definition u_h_ac : str := [104; 47; 97; 47; 99].               (* h/a/c *)
+Definition u_h_ab : str := [104; 47; 97; 47; 98].               (* h/a/b *)
+Definition backtrack : list decl := [mk s_GET u_h_xb 1 1; mk s_GET u_h_ac 2 2].
+
+(* F-C13h: no backtracking.  With h/{x}/b and h/a/c declared the request
+   h/a/b descends into the literal branch h/a, finds no b there and reports
+   nothing, although h/{x}/b matches it.  (No clash, no "{..}" part.) *)
+Theorem C13_most_specific_full_refuted : ~ C13_most_specific_full.
+Proof.
+  intro H.
+  destruct (build backtrack) as [pt|] eqn:HB; [|vm_compute in HB; discriminate].
+  assert (Hd : In (mk s_GET u_h_xb 1 1) backtrack) by (left; reflexivity).
+  assert (HM : matches_kind (pat (mk s_GET u_h_xb 1 1)) (split_url u_h_ab) = true)
+    by (vm_compute; reflexivity).
+  destruct (H backtrack pt u_h_ab _ HB Hd HM) as [HV _].
+  apply HV. vm_compute in HB. inversion HB; subst pt. vm_compute. reflexivity.
+Qed.
+Print Assumptions C13_most_specific_full_refuted.
+
+(* It holds outside the three findings: no host/path clash (F-C13e), the
+   matching pattern is not shadowed by a literal sibling (F-C13h), no
+   request part spelled "{..}" (F-C13i).  The three conditions are decidable
+   and are what the monitor's classifiers hostPathClash / unshadowed /
+   hasBracePart compute. *)
+Theorem C13_most_specific_holds_outside_clash_backtracking_brace :
+  forall ds pt url d', build ds = Some pt -> In d' ds ->
+    matches_kind (pat d') (split_url url) = true ->
+    kind_consistentb ds = true ->
+    unshadowedb ds [] (pat d') (split_url url) = true ->
+    no_braceb (split_url url) = true ->
+    C13_most_specific_statement ds pt url d'.
+Proof.
+  intros ds pt url d' HB Hd HM HK HU HNB.
+  destruct (C13_global_specificity ds pt url HB HK) as (_ & Hb & Hc).
+  pose proof (Hc d' Hd HM HU HNB) as HV. split; [exact HV|].
+  apply (Hb d' Hd HM HU).
+  destruct (l_val (plookup pt url)) as [id|] eqn:E; [|contradiction].
+  exact (lookup_val_match _ _ _ E).
+Qed.
+Print Assumptions C13_most_specific_holds_outside_clash_backtracking_brace.
+
+(* F-C13i: a request part spelled "{..}" is taken for a parameter reference:
+   it passes a parameter step without being bound, and where there is no
+   parameter step the lookup gives up, also under a declared wildcard.  The
+   third side condition is needed, and clause "path parameters = the
+   request's parts at the parameter positions" fails for such a request. *)
+Definition u_h_p : str := [104; 47; 123; 112; 125].             (* h/{p} *)
+Definition u_h_z : str := [104; 47; 123; 122; 125].             (* h/{z} *)
+
+Theorem C13_most_specific_brace_refuted :
+  ~ (forall ds pt url d', build ds = Some pt -> In d' ds ->
+       matches_kind (pat d') (split_url url) = true ->
+       kind_consistentb ds = true ->
+       unshadowedb ds [] (pat d') (split_url url) = true ->
+       C13_most_specific_statement ds pt url d').
+Proof.
+  intro H.
+  destruct (build [mk s_GET u_h_star 1 1]) as [pt|] eqn:HB; [|vm_compute in HB; discriminate].
+  destruct (H [mk s_GET u_h_star 1 1] pt u_h_z _ HB (or_introl eq_refl)) as [HV _];
+    try (vm_compute; reflexivity).
+  apply HV. vm_compute in HB. inversion HB; subst pt. vm_compute. reflexivity.
+Qed.
+Print Assumptions C13_most_specific_brace_refuted.
+
+Definition C13_path_params_full : Prop :=
+  forall ds pt url id, build ds = Some pt -> kind_consistentb ds = true ->
+    l_val (plookup pt url) = Some id ->
+    exists d, In d ds /\ dkey d = l_key (plookup pt url) /\
+      l_params (plookup pt url) = params_at (pat d) (split_url url) [].
+
+Theorem C13_path_params_full_refuted : ~ C13_path_params_full.
+Proof.
+  intro H.
+  destruct (build [mk s_GET u_h_p 1 1]) as [pt|] eqn:HB; [|vm_compute in HB; discriminate].
+  assert (HK : kind_consistentb [mk s_GET u_h_p 1 1] = true) by (vm_compute; reflexivity).
+  assert (HV : l_val (plookup pt u_h_z) = Some 0%N).
+  { vm_compute in HB. inversion HB; subst pt. vm_compute. reflexivity. }
+  destruct (H _ pt u_h_z _ HB HK HV) as (d & Hd & _ & HP).
+  destruct Hd as [<-|[]].
+  vm_compute in HB. inversion HB; subst pt. vm_compute in HP. discriminate HP.
+Qed.
+Print Assumptions C13_path_params_full_refuted.
+
+Theorem C13_path_params_holds_outside_brace_part : forall ds pt url id,
+  build ds = Some pt -> kind_consistentb ds = true ->
+  l_val (plookup pt url) = Some id -> no_braceb (split_url url) = true ->
+  exists d, In d ds /\ dkey d = l_key (plookup pt url) /\
+    l_params (plookup pt url) = params_at (pat d) (split_url url) [].
+Proof.
+  intros ds pt url id HB HK HV HNB.
+  destruct (C13_most_specific ds pt url HB HK) as (Ha & _).
+  destruct (Ha id HV) as (d & H1 & H2 & _ & _ & _ & H6).
+  exists d. repeat split; auto. apply H6. apply no_braceb_spec. exact HNB.
+Qed.
+Print Assumptions C13_path_params_holds_outside_brace_part.
 
 (* ------------------------------------------------------------------ *)
 (* Order independence *)
@@ -208,9 +475,6 @@ Qed.
 Print Assumptions C13_order_independent_exact.
 
 (* "h/*" and "h/a", both GET with a remedy of the same type *)
-Definition u_h_star : str := [104; 47; 42].
-Definition u_h_a : str := [104; 47; 97].
-Definition u_h_b : str := [104; 47; 98].
 Definition overlap : list decl := [mk s_GET u_h_star 1 1; mk s_GET u_h_a 2 1].
 
 (* F-C13f: checkForDuplicates rejects [h/*; h/a] (the second URL looks up the
@@ -240,6 +504,31 @@ Proof.
 Qed.
 Print Assumptions C13_order_independent_clash_refuted.
 
+(* F-C13j: two declarations of ONE method and URL are merged in declaration
+   order, and the dispatcher applies the selected remedies in list order
+   (runOnRequest: each remedy sees the request as updated by the previous
+   ones, header edits are last-writer-wins, C07): the SEQUENCE of the selected
+   remedies depends on the declaration order.  [C13_order_independent] states
+   the multiset, [C13_order_independent_exact] the sequence under
+   [distinct_endpointsb] (= the monitor's classifier duplicateEndpoint). *)
+Definition dup : list decl := [mk s_POST u_h_a 2 2; mk s_POST u_h_a 4 4].
+
+Theorem C13_order_independent_sequence_refuted :
+  ~ (forall ds ds' pt pt' m url, Permutation ds ds' ->
+       build ds = Some pt -> build ds' = Some pt' -> kind_consistentb ds = true ->
+       endpoint_remedies pt m url = endpoint_remedies pt' m url).
+Proof.
+  intro H.
+  destruct (build dup) as [pt|] eqn:HB; [|vm_compute in HB; discriminate].
+  destruct (build (rev dup)) as [pt'|] eqn:HB'; [|vm_compute in HB'; discriminate].
+  assert (HK : kind_consistentb dup = true) by (vm_compute; reflexivity).
+  pose proof (H dup (rev dup) pt pt' s_POST u_h_a (Permutation_rev dup) HB HB' HK) as E.
+  vm_compute in HB. inversion HB; subst pt.
+  vm_compute in HB'. inversion HB'; subst pt'.
+  vm_compute in E. discriminate E.
+Qed.
+Print Assumptions C13_order_independent_sequence_refuted.
+
 (* ------------------------------------------------------------------ *)
 (* Non-vacuity: overlapping literal / parameter / wildcard declarations of
    two methods, accepted, consistent; the F-C13 scenario no longer leaks *)
@@ -264,5 +553,37 @@ Example C13_sample_selection :
       (* no backtracking: h/a/b walks into h/a, then falls back to h/* *)
       l_norm (plookup pt u_h_a_b) = u_h_star
   | _, _ => False
+  end.
+Proof. vm_compute. repeat split; reflexivity. Qed.
+
+(* nested wildcards and an exact pattern at the inner wildcard's parent: the
+   hypotheses of [C13_global_specificity] are met, the deeper wildcard wins
+   over the outer one — also for the request that is exactly its parent
+   (where it stands for nothing) — and the exact pattern over both *)
+Definition u_h_a_star : str := [104; 47; 97; 47; 42].           (* h/a/* *)
+Definition nested : list decl := [mk s_GET u_h_star 1 1; mk s_GET u_h_a_star 2 2].
+Definition nested_exact : list decl := nested ++ [mk s_GET u_h_a 3 3].
+
+Example C13_sample_specificity :
+  kind_consistentb nested_exact = true /\
+  no_braceb (split_url u_h_a_b) = true /\
+  forallb (fun d => matches_kind (pat d) (split_url u_h_a) &&
+                    unshadowedb nested_exact [] (pat d) (split_url u_h_a)) nested_exact = true /\
+  match build nested, build (rev nested), build nested_exact with
+  | Some pt, Some pt', Some pte =>
+      l_norm (plookup pt u_h_a_b) = u_h_a_star /\
+      l_norm (plookup pt u_h_a) = u_h_a_star /\
+      l_norm (plookup pt' u_h_a) = u_h_a_star /\
+      l_norm (plookup pt u_h_b) = u_h_star /\
+      l_norm (plookup pt [104]) = u_h_star /\
+      l_norm (plookup pte u_h_a) = u_h_a /\
+      l_norm (plookup pte u_h_a_b) = u_h_a_star /\
+      spec_leb (steps_of (pat (mk s_GET u_h_star 1 1)))
+               (steps_of (pat (mk s_GET u_h_a_star 2 2))) = true /\
+      spec_leb (steps_of (pat (mk s_GET u_h_a_star 2 2)))
+               (steps_of (pat (mk s_GET u_h_a 3 3))) = true /\
+      spec_leb (steps_of (pat (mk s_GET u_h_a_star 2 2)))
+               (steps_of (pat (mk s_GET u_h_star 1 1))) = false
+  | _, _, _ => False
   end.
 Proof. vm_compute. repeat split; reflexivity. Qed.
